@@ -132,11 +132,13 @@ PLAN = {
             {"run": "TestC11_Programs", "checks": 150, "race": True},
             {"run": "TestC11_LRULinearizable", "checks": 1000, "race": True},
             {"run": "TestC11_FirstUse", "checks": 60, "race": True},
+            {"run": "TestC11_OptionTwins", "checks": 150, "race": True},
         ],
         "thorough": [
             {"run": "TestC11_Programs", "checks": 7500, "race": True, "shards": 8, "timeout": 7200},
             {"run": "TestC11_LRULinearizable", "checks": 50000, "race": True, "shards": 8, "timeout": 7200},
             {"run": "TestC11_FirstUse", "checks": 5000, "race": True, "shards": 4, "timeout": 7200},
+            {"run": "TestC11_OptionTwins", "checks": 8000, "race": True, "shards": 4, "timeout": 7200},
         ],
     },
     "C12": {
@@ -162,15 +164,18 @@ PLAN = {
         ],
     },
     "C14": {
+        "wtf": True,
         "quick": [
             {"run": "TestC14_Query", "checks": 40000},
             {"run": "TestC14_Limit", "checks": 5000},
             {"run": "FuzzC14_ValidateQuery"},
+            {"run": "TestC14_CLI", "checks": 250},
         ],
         "thorough": [
             {"run": "TestC14_Query", "checks": 6000000, "shards": 14, "timeout": 7200},
             {"run": "TestC14_Limit", "checks": 600000, "shards": 2, "timeout": 7200},
             {"run": "FuzzC14_ValidateQuery", "fuzz": "FuzzC14_ValidateQuery", "fuzztime": "240s", "parallel": 16, "timeout": 1500},
+            {"run": "TestC14_CLI", "checks": 12000, "shards": 4, "timeout": 7200},
         ],
     },
     "C15": {
